@@ -78,3 +78,138 @@ Record mparams := mkMP {
 Definition mp_ok (p : mparams) : Prop := whole (mp_rb p) /\ whole (mp_lb p) /\ whole (mp_tb p).
 Definition mp_name (p : mparams) : string :=
   manual_name (mp_w p) (mp_l p) (mp_r p) (pct (mp_rb p)) (pct (mp_lb p)) (pct (mp_tb p)) (mp_fd p).
+
+(** * Parameter checks (C15)
+    [check_input], generic in the type of the probabilities: the code only asks [p <= 0] and
+    [p >= 1]. Instance Q carries the theorems; instance F (binary64, where NaN answers false to
+    both questions) is the one compared with the implementation. Integers are Python ints = Z. *)
+
+Section CheckInput.
+  Variable P : Type.
+  Variable le0 : P -> bool.     (* p <= 0 *)
+  Variable ge1 : P -> bool.     (* p >= 1 *)
+
+  Definition check_input_gen (seed width length : Z) (prob_robot_break prob_light_break prob_loose_tile
+                              prob_tile_break : P) (max_reward : Z) : outcome unit :=
+    if (seed <? 0)%Z then ValueErr "The seed must be a nonnegative integer" else
+    if (width <=? 0)%Z then ValueErr "The width must be a positive integer" else
+    if (length <=? 0)%Z then ValueErr "The length must be a positive integer" else
+    if le0 prob_robot_break || ge1 prob_robot_break
+    then ValueErr "The failure probability of the robot must be a float in (0,1)" else
+    if le0 prob_light_break || ge1 prob_light_break
+    then ValueErr "The failure probability of the light must be a float in (0,1)" else
+    if le0 prob_loose_tile || ge1 prob_loose_tile
+    then ValueErr "The probability of a tile being loose must be a float in (0,1)" else
+    if le0 prob_tile_break || ge1 prob_tile_break
+    then ValueErr "The probability of a tile breaking must be a float in (0,1)" else
+    if (max_reward <=? 0)%Z then ValueErr "The maximum reward must be a positive integer" else
+    Ok tt.
+End CheckInput.
+
+Definition check_input : Z -> Z -> Z -> Q -> Q -> Q -> Q -> Z -> outcome unit :=
+  check_input_gen Q (fun p => Qle_bool p 0) (fun p => Qle_bool 1 p).
+Definition check_input_F : Z -> Z -> Z -> float -> float -> float -> float -> Z -> outcome unit :=
+  check_input_gen float (fun p => PrimFloat.leb p 0%float) (fun p => PrimFloat.leb 1%float p).
+
+(* str(round(x)) on any binary64 value: round(nan) raises ValueError, round(+-inf) OverflowError *)
+Definition prob_to_str_o (p : float) : outcome string :=
+  let x := PrimFloat.mul p f_100 in
+  if negb (PrimFloat.eqb x x) then ValueErr "cannot convert float NaN to integer"
+  else if PrimFloat.eqb (PrimFloat.abs x) infinity then Crash "OverflowError"
+  else Ok (decZ (py_round x)).
+
+(* Control flow of roberta_generator.main up to the point where the file is opened: parameter
+   check, board generation (the only way it can raise: 2.0**(max_reward+1) overflows binary64 from
+   max_reward = 1023 on - OverflowError, not ValueError), name assembly (left to right).
+   [Ok name] = the run reaches [open(name, "w")]; anything else = nothing was written. *)
+Definition gen_main_F (seed width length max_reward : Z) (prob_loose_tile prob_tile_break
+                       prob_robot_break prob_light_break : float) (force_down : bool) : outcome string :=
+  do _ <- check_input_F seed width length prob_robot_break prob_light_break prob_loose_tile
+                        prob_tile_break max_reward;
+  if (1023 <=? max_reward)%Z then Crash "OverflowError" else
+  do rb <- prob_to_str_o prob_robot_break;
+  do lb <- prob_to_str_o prob_light_break;
+  do tb <- prob_to_str_o prob_tile_break;
+  do lt <- prob_to_str_o prob_loose_tile;
+  Ok (name_tokens (decZ seed) (decZ width) (decZ length) (decZ max_reward) rb lb tb lt force_down).
+
+(** * The random board over an abstract random source (C15)
+    The Mersenne Twister stream and [random.choices]/[random.randrange] are not modelled: the
+    draws are section variables. [u n] is the n-th value returned by [random.random()] after
+    [random.seed(seed)] (tile (i,j) consumes draws 2(iW+j) and 2(iW+j)+1, in that order);
+    [choices i] is the list returned by [random.choices(population, weights, k=width)] for row i
+    and [rr i] the value of [random.randrange(0, width)] for row i. Theorems state the ranges of
+    these results as hypotheses (0 < u < 1; entries of the population; rr < width).
+
+    The reward of a tile is floor(-log(y)/log(2)) with y = 2^-(m+1) + u (1 - 2^-(m+1)); libm's
+    [log] is not modelled either: the model is the mathematical value, i.e. the unique k with
+    2^-(k+1) < y <= 2^-k, computed on exact rationals by repeated doubling. *)
+
+Local Open Scope Q_scope.
+
+Fixpoint hpow (k : nat) : Q :=          (* 2^-k *)
+  match k with O => 1 | S k' => (1 # 2) * hpow k' end.
+
+(* floor(-log2 y) for 2^-fuel < y <= 1 *)
+Fixpoint floor_neg_log2 (fuel : nat) (y : Q) : nat :=
+  match fuel with
+  | O => O
+  | S f => if Qle_bool y (1 # 2) then S (floor_neg_log2 f (2 * y)) else O
+  end.
+
+Definition yval (m : nat) (x : Q) : Q := hpow (S m) + x * (1 - hpow (S m)).
+Definition reward_of (m : nat) (x : Q) : nat := floor_neg_log2 (S (S m)) (yval m x).
+
+Fixpoint set_nth (k : nat) (v : nat) (l : list nat) : list nat :=
+  match l, k with
+  | [], _ => []                       (* Python: IndexError; unreachable when k < length l *)
+  | _ :: r, O => v :: r
+  | a :: r, S k' => a :: set_nth k' v r
+  end.
+
+Section Board.
+  Variable u : nat -> Q.
+  Variable choices : nat -> list nat.
+  Variable rr : nat -> nat.
+
+  Definition tile_reward (W m i j : nat) : nat := reward_of m (u (2 * (i * W + j))).
+  Definition tile_loose (W : nat) (p : Q) (i j : nat) : nat :=
+    if Qle_bool p (u (2 * (i * W + j) + 1)) then 0%nat else 1%nat.     (* 1 if u < p else 0 *)
+
+  Definition get_random_moves (L W : nat) (force_down : bool) : list (list nat) :=
+    map (fun i => if force_down then set_nth (rr i) 3 (choices i) else choices i) (seq 0 L).
+
+  (* returns (moves, rewards, loose_tiles) like the code *)
+  Definition gen_rnd_board (L W : nat) (p : Q) (m : nat) (force_down : bool)
+    : list (list nat) * list (list nat) * list (list nat) :=
+    (get_random_moves L W force_down,
+     map (fun i => map (tile_reward W m i) (seq 0 W)) (seq 0 L),
+     map (fun i => map (tile_loose W p i) (seq 0 W)) (seq 0 L)).
+End Board.
+
+Local Close Scope Q_scope.
+
+(* the shape the property asks for, as a boolean (evaluated by the check on the boards the
+   implementation returns) *)
+Definition rows_ok (L W : nat) (okv : nat -> bool) (g : list (list nat)) : bool :=
+  Nat.eqb (List.length g) L && forallb (fun row => Nat.eqb (List.length row) W && forallb okv row) g.
+
+Definition board_shape_ok (L W m : nat) (force_down : bool)
+           (b : list (list nat) * list (list nat) * list (list nat)) : bool :=
+  let '(moves, rewards, loose) := b in
+  rows_ok L W (fun a => Nat.ltb a (if force_down then 4 else 3)) moves &&
+  rows_ok L W (fun r => Nat.leb r m) rewards &&
+  rows_ok L W (fun t => Nat.leb t 1) loose &&
+  forallb (fun row => Bool.eqb (existsb (Nat.eqb 3) row) force_down) moves.
+
+(* ... and as a proposition *)
+Definition grid (L W : nat) (okv : nat -> Prop) (g : list (list nat)) : Prop :=
+  List.length g = L /\ forall row, In row g -> List.length row = W /\ Forall okv row.
+
+Definition board_shape (L W m : nat) (force_down : bool)
+           (b : list (list nat) * list (list nat) * list (list nat)) : Prop :=
+  let '(moves, rewards, loose) := b in
+  grid L W (fun a => a < (if force_down then 4 else 3)) moves /\
+  grid L W (fun r => r <= m) rewards /\
+  grid L W (fun t => t <= 1) loose /\
+  (forall row, In row moves -> (In 3 row <-> force_down = true)).
